@@ -97,9 +97,9 @@ fn small_source(rng: &mut Rng, n: usize, nchunks: usize) -> Vec<u8> {
 }
 
 fn library_engine(rep: &Report, seed: u64, tier: Tier) {
-    let max_desc = tier.pick(9, 11);
+    let max_desc = tier.pick(10, 12);
     // bita-written archives (real CLI) and R2-written ones.
-    let jobs: Vec<(usize, bool)> = (0..tier.pick(4, 8)).map(|i| (i, false)).chain((0..tier.pick(5, 12)).map(|i| (i, true))).collect();
+    let jobs: Vec<(usize, bool)> = (0..tier.pick(8, 24)).map(|i| (i, false)).chain((0..tier.pick(12, 40)).map(|i| (i, true))).collect();
     let out = par_map(jobs.len(), crate::util::ncpu(), |j| {
         let (i, r2) = jobs[j];
         let mut rng = Rng::new(seed).fork(0x0700_0000 + j as u64);
@@ -194,7 +194,7 @@ pub fn one_scenario(rep: &Report, idx: usize, sc: &Scenario, keep: bool) -> Opti
 pub fn run(tier: Tier, seed: u64) -> i32 {
     let rep = Report::new("C07", "exploration", tier, seed);
     library_engine(&rep, seed, tier);
-    let n = tier.pick(180, 2000);
+    let n = tier.pick(500, 5000);
     let viols = par_map(n, crate::util::ncpu(), |i| {
         let mut rng = Rng::new(seed).fork(0x0700 + i as u64);
         let mut sc = cc::gen_scenario(&mut rng, Focus::Mixed, (1, 1), true);
